@@ -55,6 +55,7 @@ _trf = None  # [Af[n]] — forward transform matrices
 _tri_full = None  # [Ai[n]] — inverse-transform matrices without mask and reg
 _tri_prm = None  # [reg] — regularization parameters
 _tri = None  # [Ai[n]] — inverse-transform matrices (or Af for reg='pos')
+_mask_key = None  # invalid-radii mask applied in _trf and _tri
 
 
 def rbasex_transform(IM, origin='center', rmax='MIN', order=2, odd=False,
@@ -606,7 +607,7 @@ def get_bs_cached(Rmax, order=2, odd=False, direction='inverse', reg=None,
         (**Rmax** + 1) × (**Rmax** + 1) matrices of the Abel transform (forward
         or inverse) for each angular order
     """
-    global _bs_prm, _bs, _trf, _tri_full, _tri_prm, _tri
+    global _bs_prm, _bs, _trf, _tri_full, _tri_prm, _tri, _mask_key
 
     if basis_dir == '':
         basis_dir = abel.transform.get_basis_dir(make=True)
@@ -638,6 +639,15 @@ def get_bs_cached(Rmax, order=2, odd=False, direction='inverse', reg=None,
         invalid = None
     else:
         invalid = np.logical_not(valid)
+
+    # transform matrices are masked according to "valid", so cached ones can
+    # be reused only for the same mask
+    mask_key = None if invalid is None else invalid.tobytes()
+    if _mask_key != mask_key:
+        _mask_key = mask_key
+        _trf = None
+        _tri_prm = None
+        _tri = None
 
     def mask(A):
         # Zero rows for output radii without data (columns do not need to be
